@@ -9,6 +9,7 @@ import (
 	"github.com/vedadiyan/genql/vrt"
 	"verif/harness/core"
 	"verif/harness/gq"
+	"verif/harness/racemon"
 )
 
 // C10: no query, option set or input can crash or hang the host process.
@@ -72,6 +73,13 @@ var c10Corners = []string{
 	"SELECT id FROM `t[each:each:each]`",
 	"SELECT id FROM `items[0]`",
 	"SELECT `t[5].id` AS x FROM dual",
+	// PARALLEL joins that succeed: one goroutine per key evaluates the ON columns through the
+	// process-wide selector cache, cold at the start of every execution (an unsynchronised map access
+	// there is a fatal error, not a panic)
+	"SELECT * FROM t x PARALLEL JOIN u y ON x.a >= y.c",
+	"SELECT * FROM t x PARALLEL LEFT JOIN u y ON x.a < y.c OR x.b = y.b",
+	"SELECT * FROM t x PARALLEL JOIN u y ON x.b = y.b",
+	"SELECT id, ASYNC.HMID(a) AS m, SPINASYNC.HMID(`o.p`) FROM t",
 	"SELECT * FROM t x PARALLEL JOIN u y ON x.a + y.c",
 	"SELECT * FROM t x PARALLEL LEFT JOIN u y ON x.b",
 	"SELECT * FROM t x PARALLEL HASH_JOIN u y ON x.items = y.b",
@@ -406,6 +414,8 @@ func (p *c10) RunCase(i int) *core.CaseResult {
 	qs := p.queries(i)
 	resume := core.ResumeAfter(i)
 	combos := optCombos()
+	raceSeen := map[string]bool{}
+	raceBase := racemon.Errors()
 	nOpts := 8
 	docs := []int{0, 1, 2}
 	if c.kind != "corner" {
@@ -437,6 +447,18 @@ func (p *c10) RunCase(i int) *core.CaseResult {
 						func(o *gq.Out, prefix []int32) bool { outs = append(outs, o); return o.Panic == "" && o.GPanic == "" })
 					r.Execs += st.Execs
 					r.Transitions += st.Transitions
+					// unsynchronised accesses to a Go map from the library's own goroutines are fatal
+					// errors ("concurrent map read and map write"): reported by the race monitor
+					if racemon.Enabled && racemon.Errors() != raceBase {
+						raceBase = racemon.Errors()
+						for _, rep := range racemon.Drain() {
+							if !strings.Contains(rep.Text, "runtime.map") || raceSeen[rep.Sig] {
+								continue
+							}
+							raceSeen[rep.Sig] = true
+							r.Fail("C10|corner|concurrent-map-access|"+rep.Sig, fmt.Sprintf("%s (options %s, document %d): the library's goroutines access a map without synchronisation (fatal error: concurrent map read and map write / writes): %s", sql, optName(m), di, rep.Text), map[string]any{"sql": sql, "options": optName(m), "doc": p.docs[di](), "report": rep.Text})
+						}
+					}
 				} else {
 					outs = []*gq.Out{gq.Run(doc, sql, opts...)}
 					r.Execs++
@@ -469,10 +491,11 @@ func (p *c10) RunCase(i int) *core.CaseResult {
 
 func (p *c10) Meta() core.Meta {
 	return core.Meta{
-		Rule:        "corner cases: 154 hand-listed queries (NATURAL JOIN, chained UNION, self- / mutually- / recursively-referencing CTEs, unbalanced brackets under IdiomaticArrays, out-of-range indices in FROM paths, PARALLEL joins and ASYNC / SPIN / SPINASYNC calls whose evaluation fails or panics, DISTINCT over subqueries / back-references plus star, ORDER BY / GROUP BY of objects, SUBSTR / ELEMENTAT out of range, unsupported MySQL syntax families, scalars where arrays are expected) x all 8 option combinations x 3 documents, goroutine-bearing ones under every schedule with <= 1 preemption; mutation cases: every single-token mutation (delete, duplicate, replace by / insert each of 54 tokens) of 12 (thorough 24) seed queries covering the supported grammar x 5 option combinations x 2 documents; token cases: every token string of length <= 3 (thorough 4) over a 30-token alphabet x 5 option combinations. Oracle: no panic escapes New / Exec, no library goroutine panics, no deadlock (scheduler), no worker death (stack overflow, fatal error) and no hang (watchdog), each attributed to the journalled sub-case. non-trivial = some query of the case succeeded",
+		Rule:        "corner cases: 170 hand-listed queries (NATURAL JOIN, chained UNION, self- / mutually- / recursively-referencing CTEs, unbalanced brackets under IdiomaticArrays, out-of-range indices in FROM paths, PARALLEL joins and ASYNC / SPIN / SPINASYNC calls whose evaluation fails or panics, DISTINCT over subqueries / back-references plus star, ORDER BY / GROUP BY of objects, SUBSTR / ELEMENTAT out of range, unsupported MySQL syntax families, scalars where arrays are expected) x all 8 option combinations x 3 documents, goroutine-bearing ones under every schedule with <= 1 preemption with the race detector as a monitor for unsynchronised map accesses (which are fatal errors, not panics); mutation cases: every single-token mutation (delete, duplicate, replace by / insert each of 54 tokens) of 12 (thorough 24) seed queries covering the supported grammar x 5 option combinations x 2 documents; token cases: every token string of length <= 3 (thorough 4) over a 30-token alphabet x 5 option combinations. Oracle: no panic escapes New / Exec, no library goroutine panics, no deadlock (scheduler), no worker death (stack overflow, fatal error) and no hang (watchdog), each attributed to the journalled sub-case. non-trivial = some query of the case succeeded",
 		Assumptions: []string{"user-registered functions that panic with a value that is not an error are outside the property's quantifier; HPANIC panics with an error value, HPANICSTR with a runtime error", "debug.SetMaxStack(256 MiB) makes runaway recursion fail fast; the watchdog kills a worker without progress for 120 s"},
 		Bounds:      map[string]any{"corners": len(c10Corners), "seeds": len(c10Seeds), "menu": len(c10Menu), "token_alphabet": len(c10TokenAlphabet), "token_length": p.tokLen},
 		Exhaustive:  true,
+		NeedRace:    true,
 		CaseTimeout: 0,
 	}
 }
